@@ -62,6 +62,15 @@ def hostile(tier, seed):
     s = cases.circ()
     s.update(kind="cli_circ", tag="hostile-cli-circ-unknown", hostile=True, c12_class="hostile|cli_circ", must_reject=True, yaml_update={"nx_cor": 3})
     out.append(s)
+    if tier == "thorough":
+        import os
+
+        from ..env import REPO
+
+        with open(os.path.join(REPO, "examples", "torpex-xpoint", "torpex-coils.yaml")) as f:
+            ty = f.read()
+        ty = ty.replace("  nx_core: 8", "  nx_core: 8\n  nx_cor: 3")
+        out.append({"kind": "cli_torpex", "yaml_text": ty, "tag": "hostile-cli-torpex-unknown", "hostile": True, "c12_class": "hostile|cli_torpex", "must_reject": True, "timeout": 1500})
     # impossible / extreme settings: either outcome, but never a malformed file
     soft = [
         dict(opts={"psinorm_core": 1.1}), dict(opts={"psinorm_sol": 0.9}), dict(opts={"psinorm_pf": 1.05}), dict(opts={"psinorm_core": 0.0}),
@@ -108,8 +117,10 @@ def shipped(tier):
     geos = ["lsn", "usn", "cdn", "udn", "ldn", "udn2"] if tier == "thorough" else ["lsn", "cdn", "ldn"]
     for g in geos:
         out.append({"kind": "example", "geometry": g, "tag": "shipped-example-" + g, "c12_class": "shipped|tokamak_example", "must_generate": True, "timeout": 1500})
-    for name, topo in (("geqdsk_cdn.yaml", "cdn"), ("geqdsk_ldn.yaml", "ldn")):
-        s = cases.tok(topo, s=1, fs=1, tag="shipped-" + name)
+    for name, topo in (("geqdsk_cdn.yaml", "cdn"), ("geqdsk_ldn.yaml", "cdn")):
+        # reference settings for a machine-sized equilibrium (spacing lengths of order 1 m): run them on
+        # the analytic double null scaled to 4x (R = 4..8 m)
+        s = cases.tok(topo, s=1, fs=1, tag="shipped-" + name, eq_extra={"scale": 4.0}, wall={"kind": "box", "scale": 4.0}, shift=(0.003, 0.0))
         s.update(kind="cli_geqdsk", yaml_file=name, c12_class="shipped|" + name, must_generate=True, timeout=1500)
         s["opts"] = {}
         out.append(s)
